@@ -10,7 +10,8 @@ from checks import ingest_common as ic
 
 def run(ck):
     ck.trusted += [
-        "C01: Go mutex atomicity (each mutex hold / each sequential section of genericInsertService.go is one model step); "
+        "C01: Go mutex semantics (a Lock/Unlock region is atomic with respect to the other regions of the same mutex); WHICH regions exist and what they touch is "
+        "regenerated from the source and compared with model/IngestRegions.v on every run; "
         "timers, the 1 s sleep after a refused connection and the watchdog are modelled as nondeterministic steps (SPlan, SDial, SPingFail)",
         "C01: the unsynchronised read of svc.running, ch-go block encoding and real-time bounds are outside the model; "
         "requests of the wrong Go type for a service (never produced by the routes) are not modelled",
